@@ -123,9 +123,24 @@ def other(ctx, case, cfg, seed, name):
             mk = end[:, :, :J].amax(dim=(-1, -2))
             return [-float(mk[i]) for i in didx]
 
+    sched_seen = None
     if name in ("fjsp", "jssp"):
         inst = S.JobShop.extract(td0, 0)
         bound = S.JobShop.step_bound(inst) + 2
+        sched_seen = set()
+        real_ops = [o for o in range(len(inst["pad"])) if not inst["pad"][o]]
+
+        def reward_fn(td, didx, pref):
+            # the library's own final state: (machine, start time) of every real operation of each finished history
+            out = []
+            for i in didx:
+                ma = td["ma_assignment"][i]
+                st = td["start_times"][i]
+                sched_seen.add(tuple((int(ma[:, o].argmax()), float(st[o])) for o in real_ops))
+                fin = td["finish_times"][i]
+                out.append(-float(max(float(fin[o]) for o in real_ops)))
+            return out
+
     elif name == "ffsp":
         inst = S.FlowShop.extract(td_in, 0, cfg["stages"], cfg["mas"])
         bound = S.FlowShop.step_bound(inst) + 2
@@ -163,7 +178,22 @@ def other(ctx, case, cfg, seed, name):
         if abs(-best_reach - opt) > 1e-6:
             q = "optimum_unreachable" if -best_reach > opt else "reachable_beats_optimum"
             ctx.violation(sig_of(cfg, q=q), f"best makespan reachable through the mask {-best_reach} vs brute-force optimal makespan {opt}", dict(inst=inst, best_actions=list(best_acts)))
-        ctx.sample(dict(case=case, leaves=len(leaves), best_reachable_makespan=-best_reach, brute_force_optimum=opt))
+        n_semi = None
+        if sched_seen is not None and not cfg.get("mask_no_ops", True):
+            # with the wait action every semi-active schedule (each operation at max(job ready, machine ready) for some
+            # order) is a solution of the problem and must be reachable; the env may reach more (deliberate delays)
+            semi, comp = explore.jobshop_semi_active(inst)
+            if comp:
+                n_semi = len(semi)
+                ctx.count("c05_semi_active_schedules", n_semi)
+                miss = [x for x in semi if x not in sched_seen]
+                ctx.evaluation(max(1, n_semi))
+                ctx.count("c05_candidates_checked", n_semi)
+                if miss:
+                    ctx.violation(sig_of(cfg, q="feasible_unreachable", schedule="semi_active"),
+                                  f"{len(miss)} of {n_semi} semi-active schedules are not reachable through the mask, e.g. (machine, start) per operation = {miss[0]}; {len(sched_seen)} distinct schedules reachable",
+                                  dict(inst=inst, schedule=list(miss[0])))
+        ctx.sample(dict(case=case, leaves=len(leaves), best_reachable_makespan=-best_reach, brute_force_optimum=opt, semi_active_schedules=n_semi, reachable_schedules=None if sched_seen is None else len(sched_seen)))
         return
     if name == "smtwtp":
         n = cfg["n"]
